@@ -3,15 +3,234 @@ package main
 import (
 	"crypto/x509"
 	"encoding/pem"
+	"net/http"
+	"net/http/httptest"
+	"strconv"
 	"strings"
+	"sync/atomic"
 	"testing"
+	"time"
 
+	"github.com/Cloud-Foundations/keymaster/lib/simplestorage"
 	"golang.org/x/crypto/ssh"
 )
 
+// vfC01Outcome classifies the answer of certGenHandler: `issued <hex principal>` | `refused <status>` |
+// `refused-but-signed <status>` | `noresponse` | `panic`
+func vfC01Outcome(ctype string, rr *httptest.ResponseRecorder, p interface{}) string {
+	if p != nil {
+		return "panic"
+	}
+	body := rr.Body.String()
+	if rr.Code == 200 {
+		// anything signed?
+		if ctype == "ssh" {
+			pk, _, _, _, err := ssh.ParseAuthorizedKey([]byte(body))
+			if err == nil {
+				if c, ok := pk.(*ssh.Certificate); ok && len(c.ValidPrincipals) == 1 {
+					return "issued " + vfHex(c.ValidPrincipals[0])
+				}
+			}
+		} else if block, _ := pem.Decode([]byte(body)); block != nil {
+			if c, err := x509.ParseCertificate(block.Bytes); err == nil {
+				return "issued " + vfHex(c.Subject.CommonName)
+			}
+		}
+		if len(body) == 0 {
+			return "noresponse"
+		}
+		return "refused 200"
+	}
+	if strings.Contains(body, "CERTIFICATE") || strings.Contains(body, "-cert-v01@openssh.com") {
+		return "refused-but-signed " + strconv.Itoa(rr.Code)
+	}
+	return "refused " + strconv.Itoa(rr.Code)
+}
+
+// vfParkPw is a password backend in front of the real one in which the FIRST verification after arming is slow: it
+// signals `entered` and waits for `release` before asking the real backend (a slow LDAP bind / Okta call).
+type vfParkPw struct {
+	inner interface {
+		PasswordAuthenticate(string, []byte) (bool, error)
+		UpdateStorage(simplestorage.SimpleStore) error
+	}
+	armed   int32
+	entered chan struct{}
+	release chan struct{}
+}
+
+func (c *vfParkPw) PasswordAuthenticate(u string, pw []byte) (bool, error) {
+	if atomic.CompareAndSwapInt32(&c.armed, 1, 0) {
+		close(c.entered)
+		<-c.release
+	}
+	return c.inner.PasswordAuthenticate(u, pw)
+}
+func (c *vfParkPw) UpdateStorage(s simplestorage.SimpleStore) error { return c.inner.UpdateStorage(s) }
+
+// vfC01Request builds the certificate request for target/ctype decorated with the seven shape tokens.
+func vfC01Request(shapes *vfShapes, target, ctype string, tok []string) (*http.Request, bool) {
+	key := testUserSSHPublicKey
+	if ctype != "ssh" {
+		key = testUserPEMPublicKey
+	}
+	req, err := createKeyBodyRequest(tok[0], "/certgen/"+target+"?type="+ctype, key, "")
+	if err != nil {
+		return nil, false
+	}
+	return shapes.decorate(tok, req)
+}
+
+// vfC01Overlap serves request A, lets it park inside the password backend (if it gets that far), serves request B
+// while A is parked, then releases A. Each answer is classified on its own.
+func vfC01Overlap(state *RuntimeState, shapes *vfShapes, target, ctype string, a, b []string) string {
+	for _, tok := range [][]string{a, b} {
+		// state that decorate() would change under the feet of the other request is not varied inside a pair
+		if tok[5] == "error" || tok[6] != "1" || strings.HasSuffix(tok[3], ":denied") {
+			return "bad-op"
+		}
+	}
+	reqA, okA := vfC01Request(shapes, target, ctype, a)
+	reqB, okB := vfC01Request(shapes, target, ctype, b)
+	if !okA || !okB {
+		return "bad-op"
+	}
+	real := state.passwordChecker
+	park := &vfParkPw{inner: real, armed: 1, entered: make(chan struct{}), release: make(chan struct{})}
+	state.passwordChecker = park
+	defer func() { state.passwordChecker = real }()
+	serve := func(req *http.Request) chan string {
+		done := make(chan string, 1)
+		go func() {
+			rr, p := vfServe(state.certGenHandler, req)
+			done <- vfC01Outcome(ctype, rr, p)
+		}()
+		return done
+	}
+	var outA, outB string
+	doneA := serve(reqA)
+	select {
+	case <-park.entered:
+	case outA = <-doneA:
+		atomic.StoreInt32(&park.armed, 0) // A never asked the backend: nobody is parked
+	case <-time.After(30 * time.Second):
+		outA = "hung"
+	}
+	doneB := serve(reqB)
+	select {
+	case outB = <-doneB: // answered on its own
+	case <-time.After(250 * time.Millisecond): // is waiting for something: let the backend answer A
+	}
+	close(park.release)
+	if outA == "" {
+		select {
+		case outA = <-doneA:
+		case <-time.After(30 * time.Second):
+			outA = "hung"
+		}
+	}
+	if outB == "" {
+		select {
+		case outB = <-doneB:
+		case <-time.After(30 * time.Second):
+			outB = "hung"
+		}
+	}
+	return outA + " | " + outB
+}
+
+// vfC01Expiry: every `cgexp` op of the run, in two passes: each request is served once while its `soon` cookie is
+// valid, then (after one common sleep past the latest expiry) the SAME cookie value is presented again.
+func vfC01Expiry(state *RuntimeState, shapes *vfShapes, ops []string) map[int]string {
+	type item struct {
+		idx    int
+		f      []string
+		cookie string
+		out1   string
+	}
+	setAllowed := func(a string) {
+		if a == "-" {
+			state.Config.Base.AllowedAuthBackendsForCerts = nil
+		} else {
+			state.Config.Base.AllowedAuthBackendsForCerts = strings.Split(a, ",")
+		}
+	}
+	res := map[int]string{}
+	var items []*item
+	var latest int64
+	for i, line := range ops {
+		f := strings.Fields(line)
+		if len(f) == 0 || f[0] != "cgexp" {
+			continue
+		}
+		ck := []string{}
+		if len(f) == 11 {
+			ck = strings.Split(f[8], ":")
+		}
+		if len(f) != 11 || len(ck) != 8 || ck[5] != "soon" {
+			res[i] = "bad-op"
+			continue
+		}
+		it := &item{idx: i, f: f}
+		setAllowed(f[1])
+		for attempt := 0; attempt < 6; attempt++ {
+			req, ok := vfC01Request(shapes, f[2], f[3], f[4:])
+			if !ok {
+				it.out1 = "bad-op"
+				break
+			}
+			c, err := req.Cookie(authCookieName)
+			if err != nil {
+				it.out1 = "bad-op"
+				break
+			}
+			exp := shapes.lastSoonExp
+			rr, p := vfServe(state.certGenHandler, req)
+			if time.Now().Unix() >= exp {
+				it.out1 = "harness-late" // the machine was too slow: the first presentation may have been late
+				continue
+			}
+			it.cookie, it.out1 = c.Value, vfC01Outcome(f[3], rr, p)
+			if exp > latest {
+				latest = exp
+			}
+			break
+		}
+		if it.cookie == "" {
+			res[i] = it.out1
+			continue
+		}
+		items = append(items, it)
+	}
+	if len(items) == 0 {
+		return res
+	}
+	time.Sleep(time.Until(time.Unix(latest+1, 0).Add(200 * time.Millisecond)))
+	for _, it := range items {
+		f := it.f
+		setAllowed(f[1])
+		tok := append([]string{}, f[4:]...)
+		tok[4] = "none"
+		req, ok := vfC01Request(shapes, f[2], f[3], tok)
+		if !ok {
+			res[it.idx] = "bad-op"
+			continue
+		}
+		req.AddCookie(&http.Cookie{Name: authCookieName, Value: it.cookie})
+		rr, p := vfServe(state.certGenHandler, req)
+		res[it.idx] = it.out1 + " | " + vfC01Outcome(f[3], rr, p)
+	}
+	return res
+}
+
 // TestVerifC01: `cg <allowed csv|-> <sealed 0|1> <target> <certtype> <key ok|bad> <7 shape tokens>`
-//   `cfgcg <allowed csv|-> <webui csv|-> <target> …` the same on a state loaded from a config file
-//   ↦ `issued <hex principal>` | `refused <status>` | `noresponse` | `panic`
+//
+//	`cfgcg <allowed csv|-> <webui csv|-> <target> …` the same on a state loaded from a config file
+//	↦ `issued <hex principal>` | `refused <status>` | `noresponse` | `panic`
+//	`cgov <allowed> <target> <certtype> <7 shape tokens A> <7 shape tokens B>`: B served while A is parked inside the
+//	password backend ↦ `<outcome A> | <outcome B>`
+//	`cgexp <allowed> <target> <certtype> <7 shape tokens, cookie exp = soon>`: the same cookie presented while valid
+//	and again after its expiry ↦ `<outcome before> | <outcome after>`
 func TestVerifC01(t *testing.T) {
 	io := vfOpen(t)
 	defer io.close()
@@ -21,8 +240,33 @@ func TestVerifC01(t *testing.T) {
 	signer := state.Signer
 	handState, handShapes, handSigner := state, shapes, signer
 	cfgShapes := map[*RuntimeState]*vfShapes{}
-	for _, line := range io.ops {
+	var expiry map[int]string
+	for lineNo, line := range io.ops {
 		f := strings.Fields(line)
+		if len(f) > 0 && (f[0] == "cgov" || f[0] == "cgexp") {
+			state, shapes, signer = handState, handShapes, handSigner
+			state.Mutex.Lock()
+			state.Signer = signer
+			state.Mutex.Unlock()
+			if f[0] == "cgexp" {
+				if expiry == nil {
+					expiry = vfC01Expiry(state, shapes, io.ops)
+				}
+				io.emit("%s", expiry[lineNo])
+				continue
+			}
+			if len(f) != 18 {
+				io.emit("bad-op")
+				continue
+			}
+			if f[1] == "-" {
+				state.Config.Base.AllowedAuthBackendsForCerts = nil
+			} else {
+				state.Config.Base.AllowedAuthBackendsForCerts = strings.Split(f[1], ",")
+			}
+			io.emit("%s", vfC01Overlap(state, shapes, f[2], f[3], f[4:11], f[11:18]))
+			continue
+		}
 		if len(f) != 13 || (f[0] != "cg" && f[0] != "cfgcg") {
 			io.emit("bad-op")
 			continue
@@ -84,38 +328,6 @@ func TestVerifC01(t *testing.T) {
 		state.Mutex.Lock()
 		state.Signer = signer
 		state.Mutex.Unlock()
-		if p != nil {
-			io.emit("panic")
-			continue
-		}
-		body := rr.Body.String()
-		if rr.Code == 200 {
-			// anything signed?
-			if f[4] == "ssh" {
-				pk, _, _, _, err := ssh.ParseAuthorizedKey([]byte(body))
-				if err == nil {
-					if c, ok := pk.(*ssh.Certificate); ok && len(c.ValidPrincipals) == 1 {
-						io.emit("issued %s", vfHex(c.ValidPrincipals[0]))
-						continue
-					}
-				}
-			} else if block, _ := pem.Decode([]byte(body)); block != nil {
-				if c, err := x509.ParseCertificate(block.Bytes); err == nil {
-					io.emit("issued %s", vfHex(c.Subject.CommonName))
-					continue
-				}
-			}
-			if len(body) == 0 {
-				io.emit("noresponse")
-			} else {
-				io.emit("refused 200")
-			}
-			continue
-		}
-		if strings.Contains(body, "CERTIFICATE") || strings.Contains(body, "-cert-v01@openssh.com") {
-			io.emit("refused-but-signed %d", rr.Code)
-			continue
-		}
-		io.emit("refused %d", rr.Code)
+		io.emit("%s", vfC01Outcome(f[4], rr, p))
 	}
 }
